@@ -60,16 +60,21 @@ Proof. intros Hn. pose proof (mod3_range n) as Hm. unfold bumped, put_padding.
     + intros j Hj Hne. rewrite part_set_part_other by auto. reflexivity.
   - split; [repeat split|]. split; [reflexivity|]. split; [reflexivity|]. intros; reflexivity. Qed.
 
+(* the invariant seen from the stream: the offset that counts is min(tail offset, term length) - in the very last term
+   the shared tail counter keeps growing on every failed offer (pub_inv allows up to 2 * term length there) *)
+Definition spinv (n moff : Z) (s : pubstate) : Prop :=
+  exists off, pub_inv n off s /\ moff = Z.min off (l_tlen (ps_log s)).
+
 Section Shared.
 Variables (m : mode) (rv : Z -> Z -> list Z -> Z).
 
 Lemma status_refusal l pos len : refusal (status_of l pos len) = true.
 Proof. unfold status_of. destruct (_ <=? _); [reflexivity|]. destruct (l_connected l); reflexivity. Qed.
 
-Lemma shared_offer n off s msg : pub_inv n off s -> n < two31 - 1 -> off <= l_tlen (ps_log s) ->
+Lemma shared_offer n moff s msg : spinv n moff s -> moff <= l_tlen (ps_log s) ->
   zlen msg <= 1073741824 -> l_mtu (ps_log s) mod 32 = 0 ->
-  append_effect shared pub_inv s n off (offer_laid (ps_log s) msg) (pub_step m rv s (Offer msg)).
-Proof. intros Hinv Hlast Hofft Hlen Hm32.
+  append_effect shared spinv s n moff (offer_laid (ps_log s) msg) (pub_step m rv s (Offer msg)).
+Proof. intros (off & Hinv & Hmo) _ Hlen Hm32.
   pose proof Hinv as [Hleg Hn Hcount Hoff Htail Hnext Hthird Hlim].
   pose proof (legal_mpl _ Hleg) as (Hm1 & Hm2 & Hm3 & Hm4). pose proof (legal_tlen _ Hleg) as [Htl _].
   pose proof (mod3_range n) as Hm3r. pose proof (inv_tid_i32 s n) as Htid. pose proof (zlen_nonneg msg) as H0.
@@ -83,6 +88,7 @@ Proof. intros Hinv Hlast Hofft Hlen Hm32.
     assert (Hreq : 0 < op_required (ps_log s) (Offer msg) <= l_tlen (ps_log s) / 2).
     { apply (required_ok s n off); auto. }
     destruct (try_result_inv s n off _ _ _ _ _ Hinv Hreq T) as (Hsg & Hl' & _ & Hinv').
+    assert (Em : moff = off) by lia. rewrite Em in *. clear Em.
     unfold pub_offer in Eres. apply pub_try_ok in Eres. cbv zeta in Eres. destruct Eres as (a & Hact & Hs2).
     rewrite Hcount, index_by_term_count_nonneg in Hact by assumption. rewrite Htail in Hact.
     rewrite raw_tid in Hact by (auto; unfold two32; lia).
@@ -91,7 +97,7 @@ Proof. intros Hinv Hlast Hofft Hlen Hm32.
     + unfold unfrag_required_spec in *. rewrite HDR_eq, FA_eq in *.
       rewrite (ta_unfrag_exact m rv (ps_log s) (n mod 3) _ off Hleg Hm3r Htid ltac:(lia) Htail msg ltac:(lia) Hfit) in Hact.
       injection Hact as Ha; subst a. cbn [a_log a_claim] in Hs2. subst s2.
-      eapply AE_accept with (es := map Committed [_]) (cl := None); cbn [fl_pub shared plog ps_log ps_claim ps_closed]; try eassumption; try lia.
+      eapply AE_accept with (es := map Committed [_]) (cl := None); cbn [fl_pub shared plog ps_log ps_claim ps_closed]; try eassumption; try lia; try (eexists; split; [exact Hinv'|cbn [ps_log l_tlen set_part set_tail]; lia]).
       * split; [reflexivity|]. eexists. split; [reflexivity|]. apply unfrag_frame_spec. lia.
       * rewrite part_set_part_same by assumption. reflexivity.
       * intros j Hj Hne. rewrite part_set_part_other by auto. reflexivity.
@@ -104,7 +110,7 @@ Proof. intros Hinv Hlast Hofft Hlen Hm32.
       { unfold max_payload_length. rewrite HDR_eq. rewrite Zminus_mod, Hm32. reflexivity. }
       destruct (frag_frames_spec (set_tail (ps_log s) (n mod 3) (wrap32 (l_init (ps_log s) + n) * two32 + (off + frag_required_spec (zlen msg) (max_payload_length (ps_log s)))))
                   rv (wrap32 (l_init (ps_log s) + n)) (max_payload_length (ps_log s)) msg off ltac:(lia) Hmpl32 ltac:(lia)) as (fs & Hfs & Hspec).
-      eapply AE_accept with (es := map Committed fs) (cl := None); cbn [fl_pub shared plog ps_log ps_claim ps_closed]; try eassumption; try lia.
+      eapply AE_accept with (es := map Committed fs) (cl := None); cbn [fl_pub shared plog ps_log ps_claim ps_closed]; try eassumption; try lia; try (eexists; split; [exact Hinv'|cbn [ps_log l_tlen set_part set_tail]; lia]).
       * split; [reflexivity|]. exists fs. split; [reflexivity|]. exact Hspec.
       * rewrite part_set_part_same by assumption. unfold X. rewrite Hfs. reflexivity.
       * intros j Hj Hne. rewrite part_set_part_other by auto. reflexivity.
@@ -113,16 +119,31 @@ Proof. intros Hinv Hlast Hofft Hlen Hm32.
     assert (Hreq : 0 < op_required (ps_log s) (Offer msg) <= l_tlen (ps_log s) / 2).
     { apply (required_ok s n off); auto. }
     destruct (try_result_inv s n off _ _ _ _ _ Hinv Hreq T) as (Hsg & Hl' & _ & Hinv').
+    assert (Em : moff = off) by (destruct Hoff as [_ [Ho|Ho]]; lia). rewrite Em in *. clear Em.
     destruct (bumped_parts (ps_log s) n off (op_required (ps_log s) (Offer msg)) ltac:(lia)) as (B1 & B2 & B3 & B4).
-    eapply AE_trip with (req := op_required (ps_log s) (Offer msg)); unfold plog; cbn [fl_pub shared]; try eassumption; try lia.
+    eapply AE_trip with (req := op_required (ps_log s) (Offer msg)); unfold plog; cbn [fl_pub shared]; try eassumption; try lia; try (exists 0; split; [exact Hinv'|destruct Hsg as (_ & G2 & _); rewrite <- G2; lia]).
     + rewrite Hlog, part_rotated. exact B3.
     + intros j Hj Hne. rewrite Hlog, part_rotated. apply B4; assumption.
-  - lia. Qed.
+  - (* the very last term *)
+    assert (Hreq : 0 < op_required (ps_log s) (Offer msg) <= l_tlen (ps_log s) / 2).
+    { apply (required_ok s n off); auto. }
+    destruct (try_result_inv s n off _ _ _ _ _ Hinv Hreq T) as (Hsg & Hl' & _ & Hdisj).
+    assert (Hinv' : pub_inv n (off + op_required (ps_log s) (Offer msg)) s2).
+    { destruct Hdisj as [Hsm | (_ & A)]; [|exact A]. exfalso. rewrite Hsm in Hlog.
+      apply (f_equal (fun l => tail l (n mod 3))) in Hlog. rewrite tail_bumped, Z.eqb_refl, Htail in Hlog by assumption. lia. }
+    destruct (bumped_parts (ps_log s) n off (op_required (ps_log s) (Offer msg)) ltac:(lia)) as (B1 & B2 & B3 & B4).
+    eapply AE_last with (req := op_required (ps_log s) (Offer msg)); unfold plog; cbn [fl_pub shared]; try eassumption; try lia.
+    + rewrite Hlog, B3. destruct (Z_lt_le_dec off (l_tlen (ps_log s))) as [Hlt | Hge].
+      * assert (Em : moff = off) by lia. rewrite Em. reflexivity.
+      * assert (Em : moff = l_tlen (ps_log s)) by lia. rewrite Em, Z.ltb_irrefl.
+        assert (E : (off <? l_tlen (ps_log s)) = false) by lia. rewrite E. reflexivity.
+    + intros j Hj Hne. rewrite Hlog. apply B4; assumption.
+    + exists (off + op_required (ps_log s) (Offer msg)). split; [exact Hinv'|]. destruct Hsg as (_ & G2 & _). rewrite <- G2. lia. Qed.
 
-Lemma shared_claim n off s len : pub_inv n off s -> n < two31 - 1 -> off <= l_tlen (ps_log s) ->
+Lemma shared_claim n moff s len : spinv n moff s -> moff <= l_tlen (ps_log s) ->
   0 <= len <= 1073741824 ->
-  append_effect shared pub_inv s n off (claim_laid (ps_log s) n off len) (pub_step m rv s (Claim len)).
-Proof. intros Hinv Hlast Hofft Hlen.
+  append_effect shared spinv s n moff (claim_laid (ps_log s) n moff len) (pub_step m rv s (Claim len)).
+Proof. intros (off & Hinv & Hmo) _ Hlen.
   pose proof Hinv as [Hleg Hn Hcount Hoff Htail Hnext Hthird Hlim].
   pose proof (legal_mpl _ Hleg) as (Hm1 & Hm2 & Hm3 & Hm4). pose proof (legal_tlen _ Hleg) as [Htl _].
   pose proof (mod3_range n) as Hm3r. pose proof (inv_tid_i32 s n) as Htid.
@@ -138,6 +159,7 @@ Proof. intros Hinv Hlast Hofft Hlen.
     assert (Hreq : 0 < op_required (ps_log s) (Claim len) <= l_tlen (ps_log s) / 2).
     { apply (required_ok s n off); auto. }
     destruct (try_result_inv s n off _ _ _ _ _ Hinv Hreq T) as (Hsg & Hl' & _ & Hinv').
+    assert (Em : moff = off) by lia. rewrite Em in *. clear Em.
     unfold pub_claim in Eres. rewrite Emp in Eres. apply pub_try_ok in Eres. cbv zeta in Eres. destruct Eres as (a & Hact & Hs2).
     rewrite Hcount, index_by_term_count_nonneg in Hact by assumption. rewrite Htail in Hact.
     rewrite raw_tid in Hact by (auto; unfold two32; lia).
@@ -148,7 +170,7 @@ Proof. intros Hinv Hlast Hofft Hlen.
     injection Hact as Ha; subst a. cbn [a_log a_claim] in Hs2. subst s2.
     set (fr := data_frame (ps_log s) off (len + 32) (wrap32 (l_init (ps_log s) + n)) F_UNFRAG T_DATA 0 []).
     eapply AE_accept with (es := [Claimed fr]) (cl := Some (n mod 3, off, len + 32)) (req := align (len + 32) 32);
-      unfold plog; cbn [fl_pub shared ps_log ps_claim ps_closed]; try eassumption; try lia.
+      unfold plog; cbn [fl_pub shared ps_log ps_claim ps_closed]; try eassumption; try lia; try (eexists; split; [exact Hinv'|cbn [ps_log l_tlen set_part set_tail]; lia]).
     + exists fr. split; [reflexivity|]. split; [reflexivity|]. split; [unfold span; rewrite FA_32; reflexivity|].
       cbn [f_len f_type f_flags f_session data_frame fr]. repeat split; lia.
     + rewrite part_set_part_same by assumption. reflexivity.
@@ -158,25 +180,43 @@ Proof. intros Hinv Hlast Hofft Hlen.
     assert (Hreq : 0 < op_required (ps_log s) (Claim len) <= l_tlen (ps_log s) / 2).
     { apply (required_ok s n off); auto. }
     destruct (try_result_inv s n off _ _ _ _ _ Hinv Hreq T) as (Hsg & Hl' & _ & Hinv').
+    assert (Em : moff = off) by (destruct Hoff as [_ [Ho|Ho]]; lia). rewrite Em in *. clear Em.
     destruct (bumped_parts (ps_log s) n off (op_required (ps_log s) (Claim len)) ltac:(lia)) as (B1 & B2 & B3 & B4).
-    eapply AE_trip with (req := op_required (ps_log s) (Claim len)); unfold plog; cbn [fl_pub shared]; try eassumption; try lia.
+    eapply AE_trip with (req := op_required (ps_log s) (Claim len)); unfold plog; cbn [fl_pub shared]; try eassumption; try lia; try (exists 0; split; [exact Hinv'|destruct Hsg as (_ & G2 & _); rewrite <- G2; lia]).
     + rewrite Hlog, part_rotated. exact B3.
     + intros j Hj Hne. rewrite Hlog, part_rotated. apply B4; assumption.
-  - lia. Qed.
+  - (* the very last term *)
+    assert (Hreq : 0 < op_required (ps_log s) (Claim len) <= l_tlen (ps_log s) / 2).
+    { apply (required_ok s n off); auto. }
+    destruct (try_result_inv s n off _ _ _ _ _ Hinv Hreq T) as (Hsg & Hl' & _ & Hdisj).
+    assert (Hinv' : pub_inv n (off + op_required (ps_log s) (Claim len)) s2).
+    { destruct Hdisj as [Hsm | (_ & A)]; [|exact A]. exfalso. rewrite Hsm in Hlog.
+      apply (f_equal (fun l => tail l (n mod 3))) in Hlog. rewrite tail_bumped, Z.eqb_refl, Htail in Hlog by assumption. lia. }
+    destruct (bumped_parts (ps_log s) n off (op_required (ps_log s) (Claim len)) ltac:(lia)) as (B1 & B2 & B3 & B4).
+    eapply AE_last with (req := op_required (ps_log s) (Claim len)); unfold plog; cbn [fl_pub shared]; try eassumption; try lia.
+    + rewrite Hlog, B3. destruct (Z_lt_le_dec off (l_tlen (ps_log s))) as [Hlt | Hge].
+      * assert (Em : moff = off) by lia. rewrite Em. reflexivity.
+      * assert (Em : moff = l_tlen (ps_log s)) by lia. rewrite Em, Z.ltb_irrefl.
+        assert (E : (off <? l_tlen (ps_log s)) = false) by lia. rewrite E. reflexivity.
+    + intros j Hj Hne. rewrite Hlog. apply B4; assumption.
+    + exists (off + op_required (ps_log s) (Claim len)). split; [exact Hinv'|]. destruct Hsg as (_ & G2 & _). rewrite <- G2. lia. Qed.
 
 End Shared.
 
-Theorem shared_flavour_ok : flavour_ok shared pub_inv.
+Theorem shared_flavour_ok : flavour_ok shared spinv.
 Proof. constructor.
-  - intros n off p [Hleg Hn Hcount Hoff Htail Hnext Hthird Hlim]. unfold plog. cbn [fl_pub shared]. repeat split; try assumption; lia.
-  - intros m0 n off p Hinv Hofft. unfold plog in *. cbn [fl_pub shared fl_position] in *.
+  - intros n moff p (off & [Hleg Hn Hcount Hoff Htail Hnext Hthird Hlim] & Hmo). unfold plog. cbn [fl_pub shared].
+    pose proof (legal_tlen _ Hleg) as [Htl _]. repeat split; try assumption; lia.
+  - intros m0 n moff p (off & Hinv & Hmo) Hofft. unfold plog in *. cbn [fl_pub shared fl_position] in *.
     destruct (ps_closed p) eqn:Ec.
     + unfold pub_position. rewrite Ec. reflexivity.
-    + rewrite (pub_position_spec m0 p n off Hinv Ec). unfold spec_pos. rewrite Z.min_l by assumption. reflexivity.
-  - intros m0 rv0 n off p o Hinv Hna Hok. unfold plog in *. cbn [fl_pub shared fl_step] in *.
+    + rewrite (pub_position_spec m0 p n off Hinv Ec). unfold spec_pos. rewrite Hmo. reflexivity.
+  - intros m0 rv0 n moff p o (off & Hinv & Hmo) Hna Hok. unfold plog in *. cbn [fl_pub shared fl_step] in *.
     assert (E : pub_step m0 rv0 p o = env_step p o) by (destruct o; try discriminate; reflexivity).
-    rewrite E. split; [reflexivity|]. split; [reflexivity|]. apply (env_step_inv n off p o Hinv Hok Hna).
-  - intros n off p i Hinv. unfold plog. cbn [fl_pub shared fl_with_pub]. split; [reflexivity|].
-    eapply inv_same_meta; [eassumption|apply same_meta_set_part].
+    rewrite E. split; [reflexivity|]. split; [reflexivity|].
+    destruct (env_step_inv n off p o Hinv Hok Hna) as [Hinv' (_ & G2 & _)].
+    exists off. split; [exact Hinv'|]. rewrite Hmo. f_equal. exact G2.
+  - intros n moff p i (off & Hinv & Hmo). unfold plog. cbn [fl_pub shared fl_with_pub]. split; [reflexivity|].
+    exists off. split; [|exact Hmo]. eapply inv_same_meta; [eassumption|apply same_meta_set_part].
   - intros m0 rv0 n off p msg. unfold plog. cbn [fl_pub shared fl_step]. apply shared_offer.
   - intros m0 rv0 n off p len. unfold plog. cbn [fl_pub shared fl_step]. apply shared_claim. Qed.
